@@ -627,6 +627,14 @@ type world struct {
 	readOK int
 }
 
+// dualFS: see world "gofs-dualview".
+type dualFS struct {
+	experimentalsys.FS
+	ro fs.FS
+}
+
+func (d dualFS) Open(name string) (fs.File, error) { return d.ro.Open(name) }
+
 func newWorld(name string, n int) *world {
 	w := &world{name: name}
 	w.rt = wazero.NewRuntime(ctx)
@@ -705,6 +713,10 @@ func (w *world) fsConfig() wazero.FSConfig {
 		return c.(expsysfs.FSConfig).WithSysFSMount(mount, "/")
 	case "gofs-osdir":
 		return c.WithFSMount(os.DirFS(w.dir), "/")
+	case "gofs-dualview":
+		// a Go fs.FS value that ALSO has the methods of a writable sys.FS (a type an embedder uses on the host side
+		// with full access, and mounts for the guest as an fs.FS): mounted with WithFSMount it is an fs.FS, read-only
+		return c.WithFSMount(dualFS{FS: sysfs.DirFS(w.dir), ro: os.DirFS(w.dir)}, "/")
 	case "gofs-mapfs":
 		return c.WithFSMount(w.mapfs, "/")
 	}
@@ -1382,6 +1394,7 @@ func runWorld(name string, idx int, seed int64) {
 		"ro-dir-host-bits": {"file.txt", "newfile", "sub", "sub/inner.txt"},
 		"rec-dir":          {"file.txt", "newfile", "sub"},
 		"gofs-osdir":       {"file.txt", "newfile"},
+		"gofs-dualview":    {"file.txt", "newfile", "sub/inner.txt"},
 		"gofs-mapfs":       {"file.txt", "newfile"},
 	}[name]
 	if hx.Thorough() {
@@ -1474,7 +1487,7 @@ func main() {
 	sweepOflags()
 	sweepMethods()
 	cliStage()
-	worlds := []string{"ro-dir", "rec-dir", "gofs-osdir", "gofs-mapfs", "ro-dir-derived", "ro-dir-host-bits"}
+	worlds := []string{"ro-dir", "rec-dir", "gofs-osdir", "gofs-mapfs", "ro-dir-derived", "ro-dir-host-bits", "gofs-dualview"}
 	var wg sync.WaitGroup
 	for i, name := range worlds {
 		copies := 1
